@@ -36,6 +36,12 @@ CONTEXTS = [
     Ctx("knr-decl-list", ["int", "x", "(", "y", ")"]),
     Ctx("after-typedef", ["typedef", "int", "T", ";"]),
     Ctx("after-specifiers", ["static", "const", "int"]),
+    Ctx("atomic-specifier", ["_Atomic", "(", "int"]),
+    Ctx("atomic-specifier-in-struct", ["struct", "y", "{", "_Atomic", "("]),
+    Ctx("atomic-specifier-in-parameter", ["void", "y", "(", "_Atomic", "(", "int"]),
+    Ctx("sizeof-type-name", ["int", "x", "=", "sizeof", "("], [")", ";"]),
+    Ctx("alignas", ["_Alignas", "("]),
+    Ctx("enum-in-parenthesised-declarator", ["int", "(", "x", "(", "enum", "{", "y", "}"]),
 ]
 
 BOUNDS = {
